@@ -284,7 +284,9 @@ func run(c Case, k *ev.Case) *ev.Failure {
 				why = "refused"
 			default:
 				for _, inc := range b.Incs() {
-					if inc.Index > cur.Index && inc.Index < final.Index && inc.Connect != nil && inc.Link.Dead() && !resumeSettledOn(b, inc, s) {
+					// (the connection this outage cut counts too: the stream may still have been inside its resume exchange of the
+					// PREVIOUS outage - conflict answers are retried with back-off - when the cut came)
+					if inc.Index >= cur.Index && inc.Index < final.Index && inc.Connect != nil && inc.Link.Dead() && !resumeSettledOn(b, inc, s) {
 						why = "cut"
 					}
 				}
@@ -733,6 +735,9 @@ func resumeSettledOn(b *sim.Broker, inc *sim.Inc, s *streamRef) bool {
 		return false
 	}
 	dead := inc.Link.DeadAt()
+	if ca := inc.Link.ClientClosedAt(); !ca.IsZero() && (dead.IsZero() || ca.Before(dead)) {
+		dead = ca // the client itself gave the connection up (known finding C05-spurious-reconnect, or Close): that ends it as well
+	}
 	if dead.IsZero() {
 		return true
 	}
